@@ -138,6 +138,25 @@ def make_cases(rng, tier):
     def bounded(limit_field, body, ret=None):
         return block([sfor(assign(("var", "i"), "=", ("math", mint(0))), mk_ecmp("<", emath(mvar("i")), emath(mvar(limit_field))),
                            assign(("var", "i"), "+=", ("math", mint(1))), block(body))], ret if ret is not None else ("expr", emath(mvar("i"))))
+    # forRange over collections of length 0, 1 and 2 (slice, array, map), the body jumping on the first key, at top level and
+    # nested in an outer loop whose body goes on after it: a jump acts on the innermost loop whatever that loop's length
+    def short_coll(kind, n):
+        if kind == "map":
+            return inj_map("cc", "s", "i64", [(tv_str("k%d" % i), tv_int("i64", 10 + i)) for i in range(n)])
+        return inj_seq("cc", "i64", [tv_int("i64", 10 + i) for i in range(n)], array=(kind == "array"))
+    mk_ = lambda n: scall(call("func", "Mark", [("const", kint(n))]))
+    for kind in ("slice", "array", "map"):
+        for n in (0, 1, 2):
+            if kind == "array" and n == 0:
+                continue
+            for jump in ("continue", "break", "ret", "none"):
+                js = lambda: [scontinue()] if jump == "continue" else ([sbreak()] if jump == "break" else [])
+                jret = lambda: ("expr", emath(mint(77))) if jump == "ret" else None
+                inner = lambda: sforrange("k", "cc", block([mk_(1), sif(emath(matom(const(kbool(True)))), block([mk_(2)] + js(), jret())), mk_(3)]))
+                cases.append(make_case(cid, block([mk_(0), inner(), mk_(4)], ("expr", emath(mint(5)))), [inj_func("Mark"), short_coll(kind, n)])); cid += 1
+                outer = sfor(assign(("var", "i"), "=", ("math", mint(0))), mk_ecmp("<", emath(mvar("i")), emath(mint(2))), assign(("var", "i"), "+=", ("math", mint(1))),
+                             block([inner(), mk_(6)]))
+                cases.append(make_case(cid, block([mk_(0), outer, mk_(4)], ("expr", emath(mvar("i")))), [inj_func("Mark"), short_coll(kind, n)])); cid += 1
     hs = lambda n: inj_struct("hq", fields={"I64": tv_int("i64", n)})
     for (first, second) in ((20000, 3), (10001, 9999), (9999, 10001), (3, 20000)):
         c = make_case(cid, bounded("hq.I64", []), [hs(first)]); cid += 1
@@ -180,7 +199,7 @@ def nontrivial(c, o):
 
 
 RULE = ("systematic: {for over a local, for over an injected struct field (every step evaluation observable in the host store), forRange with a local key, forRange whose key is an injected struct field} x {break, continue, return, none} x 5 nesting positions (loop body, inside if, else, else-if, nested loop) x 3 iteration indexes, with Mark calls making the executed path observable; "
-        "else-if chains of length 0-3 with every truth vector, with and without else; chains of length 1-3 in which one condition (each position) fails to evaluate — division by zero, undefined name, a number as condition — behind false conditions or behind a true one; the 10,000-iteration cap (9,999 / 10,000 / unbounded); the four compound assignments on 8 target kinds (local, struct field, nested field by value and by pointer, map entries, slice elements); "
+        "forRange over slices, arrays and maps of length 0, 1 and 2 with continue / break / return / nothing on the first key, at top level and inside an outer for loop; else-if chains of length 0-3 with every truth vector, with and without else; chains of length 1-3 in which one condition (each position) fails to evaluate — division by zero, undefined name, a number as condition — behind false conditions or behind a true one; the 10,000-iteration cap (9,999 / 10,000 / unbounded); the four compound assignments on 8 target kinds (local, struct field, nested field by value and by pointer, map entries, slice elements); "
         "a local assigned two blocks deep read at top level; random statement trees of depth <= 3 (thorough 5) with ~5% wild constructs (non-boolean conditions, break outside loops, undefined locals); "
         "five driver-stated scenarios (forRange over a slice field that the body shrinks / grows through a host method: the indexes present at the start are visited once each; compound assignments whose right-hand side changes the target through a host method: the right-hand side is evaluated before the target is read); compared: outcome class, returned value, cited positions, the full sequence of calls with argument values and dynamic types, and the host objects afterwards; distinct non-trivial = distinct statement-tree shapes containing a loop or branch")
 
